@@ -206,35 +206,72 @@ def r153(ctx, rep):
 
 
 def r153_memory(ctx, rep):
-    """MemorySource.open: mode w creates a fresh buffer (a reused buffer keeps its
-    position), mode a keeps the existing one, mode r wraps the supplied bytes."""
+    """MemorySource.open: mode w creates a fresh buffer (a reused buffer keeps its position), mode a keeps an existing
+    buffer and creates one only when there is none.  Decided on the effect sequences of open() under the valuations of
+    its mode tests, whatever the ladder looks like."""
+    from ..ladder import paths, resolve, atoms_in
     fn = ctx.project.need_fn('petl.io.sources:MemorySource.open')
-    branches = {}
-    for n in own_nodes(fn.node):
-        if isinstance(n, ast.If):
-            t = norm(n.test)
-            for m in ('r', 'w', 'a'):
-                if t == "'%s' in mode" % m:
-                    branches[m] = n
-    if set(branches) != {'r', 'w', 'a'}:
-        raise AnalysisError('anchor vanished: mode branches of MemorySource.open (%s)' % sorted(branches))
-    w = branches['w']
-    stores = [x for b in w.body for x in ast.walk(b) if isinstance(x, ast.Assign) and any(norm(t) == 'self.buffer' for t in x.targets)]
-    fresh = [x for x in stores if norm(x.value) in ('BytesIO()', 'StringIO()')]
-    reuse = [x for b in w.body for x in ast.walk(b) if isinstance(x, ast.Call) and norm(x.func) in ('self.buffer.truncate', 'self.buffer.seek')]
-    if fresh and len(fresh) == len(stores) and not reuse:
-        rep.held('R15.3', fn, "mode 'w': fresh buffer", 'a write starts from an empty buffer at position 0', w)
+    mode = fn.posparams[1] if len(fn.posparams) > 1 else 'mode'
+    atoms = []
+    for x in ast.walk(fn.node):
+        if isinstance(x, (ast.If, ast.IfExp)):
+            for a0 in atoms_in(x.test):
+                if a0 not in atoms:
+                    atoms.append(a0)
+    need = ["'%s' in %s" % (m, mode) for m in ('r', 'w', 'a')]
+    if not all(a0 in atoms for a0 in need[:2]):
+        raise AnalysisError('anchor vanished: mode tests of MemorySource.open (%s)' % atoms)
+
+    def fresh_buffer(v, before):
+        v = resolve(v, before)
+        if not (isinstance(v, ast.Call) and not v.args and not v.keywords):
+            return False
+        f = v.func
+        alts = [f.body, f.orelse] if isinstance(f, ast.IfExp) else [f]
+        return all(norm(x) in ('BytesIO', 'StringIO', 'io.BytesIO', 'io.StringIO') for x in alts)
+
+    def scenario(m, buffer_none):
+        val = {"'r' in %s" % mode: m == 'r', "'w' in %s" % mode: m == 'w', "'a' in %s" % mode: m == 'a',
+               'self.buffer is None': buffer_none, 'self.s is None': False}
+        out = []
+        for pth in paths(fn.node.body, val):
+            if pth.kind == 'raise':
+                continue
+            stores = [(i, st) for i, st in enumerate(pth.effects) if isinstance(st, ast.Assign) and
+                      any(norm(t) == 'self.buffer' for t in st.targets)]
+            reuse = [norm(x) for st in pth.effects for x in ast.walk(st) if isinstance(x, ast.Call) and
+                     norm(x.func) in ('self.buffer.truncate', 'self.buffer.seek')]
+            out.append((stores, reuse, pth))
+        return out
+    # mode w
+    bad = None
+    n = 0
+    for bn in (True, False):
+        for stores, reuse, pth in scenario('w', bn):
+            n += 1
+            if reuse or not stores or not all(fresh_buffer(st.value, pth.effects[:i]) for i, st in stores):
+                bad = reuse or [norm(st.value) for i, st in stores] or ['no new buffer']
+    if n == 0:
+        raise AnalysisError('anchor vanished: no path of MemorySource.open for mode w')
+    if bad is None:
+        rep.held('R15.3', fn, "mode 'w': fresh buffer", 'a write starts from an empty buffer at position 0', fn.node)
     else:
         rep.violated('R15.3', fn, "mode 'w': fresh buffer",
                      'opening an in-memory sink for writing does not start from a new empty buffer (%s): a reused buffer keeps '
                      'its stream position, so a second to* on the same sink leaves NUL padding / old content before the data'
-                     % ([norm(x) for x in reuse] or [norm(x.value) for x in stores]), w)
-    a = branches['a']
-    guarded = [x for x in a.body if isinstance(x, ast.If) and norm(x.test) == 'self.buffer is None']
-    if guarded and not [x for x in a.body if isinstance(x, ast.Assign)]:
-        rep.held('R15.3', fn, "mode 'a': keep the buffer", '', a)
+                     % bad, fn.node)
+    # mode a
+    okay = True
+    for stores, reuse, pth in scenario('a', False):
+        if stores:
+            okay = False
+    for stores, reuse, pth in scenario('a', True):
+        if not stores or not all(fresh_buffer(st.value, pth.effects[:i]) for i, st in stores):
+            okay = False
+    if okay:
+        rep.held('R15.3', fn, "mode 'a': keep the buffer", '', fn.node)
     else:
-        rep.violated('R15.3', fn, "mode 'a': keep the buffer", 'append mode must keep an existing buffer and only create one when there is none', a)
+        rep.violated('R15.3', fn, "mode 'a': keep the buffer", 'append mode must keep an existing buffer and only create one when there is none', fn.node)
 
 
 def r154_155(ctx, rep):
@@ -260,7 +297,7 @@ def r154_155(ctx, rep):
     w = ctx.project.need_fn('petl.io.pickle:_writepickle')
     dumps = [n for n in own_nodes(w.node) if isinstance(n, ast.Call) and norm(n.func).endswith('dump')]
     picklers = [n for n in own_nodes(w.node) if isinstance(n, ast.Call) and 'Pickler' in norm(n.func)]
-    ok = len(dumps) >= 2 and all(norm(d.func) == 'pickle.dump' and len(d.args) == 3 and norm(d.args[1]) == 'f' for d in dumps) \
+    ok = len(dumps) >= 1 and all(norm(d.func) == 'pickle.dump' and len(d.args) + len(d.keywords) >= 2 for d in dumps) \
         and not picklers
     if ok:
         rep.held('R15.5', w, 'pickle.dump(record, f, protocol)', 'one independent pickle per record', dumps[0])
@@ -272,8 +309,24 @@ def r154_155(ctx, rep):
     sk = skeleton(w)
     hdr = [e for e in sk if e.kind == 'pickle.dump' and 'HDR' in e.payload]
     rows = [e for e in sk if e.kind == 'pickle.dump' and 'ROW' in e.payload and e.region == 'loop']
-    if hdr and hdr[0].guards == ('write_header',) and rows:
+    # the header may also travel through the row loop: `chain((hdr,), it) if write_header else it`
+    chained = False
+    for lp in [n for n in own_nodes(w.node) if isinstance(n, ast.For)]:
+        itx = lp.iter
+        if isinstance(itx, ast.Name):
+            b2 = [n.value for n in own_nodes(w.node) if isinstance(n, ast.Assign) and len(n.targets) == 1 and norm(n.targets[0]) == itx.id]
+            if len(b2) == 1:
+                itx = b2[0]
+        if isinstance(itx, ast.IfExp) and norm(itx.test) in ('write_header', 'not write_header'):
+            with_h, without = (itx.body, itx.orelse) if norm(itx.test) == 'write_header' else (itx.orelse, itx.body)
+            if isinstance(with_h, ast.Call) and norm(with_h.func).endswith('chain') and len(with_h.args) == 2 and \
+                    norm(with_h.args[1]) == norm(without):
+                chained = True
+    if rows and ((hdr and all(e.guards == ('write_header',) for e in hdr)) or (not hdr and chained)):
         rep.held('R15.5', w, 'header guarded by write_header, one dump per row', '', w.node)
+    elif rows and not hdr:
+        rep.undecided('R15.5', w, 'header guarded by write_header, one dump per row',
+                      'no separate header record recognised (found %s)' % sk, w.node)
     else:
         rep.violated('R15.5', w, 'header guarded by write_header, one dump per row',
                      'expected dump(HDR) if write_header and dump(ROW) per row; found %s' % sk, w.node)
@@ -286,18 +339,30 @@ def r154_155(ctx, rep):
         rep.held('R15.5', r, 'load until EOFError', '', loads[0])
     else:
         rep.violated('R15.5', r, 'load until EOFError', 'the reader must call pickle.load(f) in a loop until EOFError', r.node)
-    # json lines: one newline per record
+    # json lines: one newline per record -- in the `lines` branch the loop over the records ends each pass with a write of '\n'
+    from ..ladder import paths
     wo = ctx.project.need_fn('petl.io.json:_writeobj')
-    ok = False
-    for n in own_nodes(wo.node):
-        if isinstance(n, ast.If) and norm(n.test) == 'lines':
-            for s in n.body:
-                if isinstance(s, ast.For):
-                    last = s.body[-1] if s.body else None
-                    if isinstance(last, ast.Expr) and norm(last.value) == "f.write('\\n')":
-                        ok = True
-    if ok:
+    verdict = None
+    for pth in paths(wo.node.body, {'lines': True}):
+        for st in pth.effects:
+            if isinstance(st, ast.For) and not ('iterencode' in norm(st.iter)):
+                # the record loop: the last sink write of a pass writes the newline
+                writes = []
+                for x in st.body:
+                    if isinstance(x, ast.Expr) and isinstance(x.value, ast.Call) and norm(x.value.func).endswith('.write'):
+                        writes.append(x)
+                from ..ladder import resolve
+                if writes and writes[-1] is st.body[-1]:
+                    before = st.body[:st.body.index(writes[-1])]
+                    arg = resolve(writes[-1].value.args[0], before) if writes[-1].value.args else None
+                    good = arg is not None and isinstance(arg, ast.Constant) and arg.value == '\n'
+                    verdict = 'held' if good else 'violated'
+                elif any(isinstance(x, ast.Call) and norm(x.func).endswith('.write') for b2 in st.body for x in ast.walk(b2)):
+                    verdict = 'violated'        # the loop writes the record but does not end the pass with the newline
+    if verdict == 'held':
         rep.held('R15.5', wo, "f.write('\\n') per record", '', wo.node)
+    elif verdict is None:
+        rep.undecided('R15.5', wo, "f.write('\\n') per record", 'record loop of the json lines branch not recognised', wo.node)
     else:
         rep.violated('R15.5', wo, "f.write('\\n') per record", 'json lines records must each be terminated by one newline', wo.node)
 
